@@ -5,18 +5,18 @@
    Besides replaying the component model the driver evaluates, per session, the property monitor and the plain
    statements on the projected trace and cross-checks them against the theorems' predictions for the repaired
    variant (MODELBUG if the extracted code disagrees with what is proved). *)
-(* variants: v<s><o><l><p><q><g> = fix_sent, fix_order, fix_l2stop, fix_prune, fix_presend, fix_ghost on top of the first
-   three repairs; "head" = v101111 = /repo HEAD; "repaired" = v111111; "defective" = the code as first found *)
+(* variants: v<s><o><l><p><t><q><g> = fix_sent, fix_order, fix_l2stop, fix_prune, fix_l2tp, fix_presend, fix_ghost on top of
+   the first three repairs; "head" = v1011011 = /repo HEAD; "repaired" = v1111111; "defective" = the code as first found *)
 let variant_of name =
-  let mk s o l p q g = { fix_counters = true; fix_stop = true; fix_active = true; fix_sent = s; fix_order = o; fix_l2stop = l;
-                         fix_prune = p; fix_presend = q; fix_ghost = g } in
+  let mk s o l p t q g = { fix_counters = true; fix_stop = true; fix_active = true; fix_sent = s; fix_order = o; fix_l2stop = l;
+                           fix_prune = p; fix_l2tp = t; fix_presend = q; fix_ghost = g } in
   match name with
-  | "repaired" | "" -> mk true true true true true true
-  | "head" -> mk true false true true true true
+  | "repaired" | "" -> mk true true true true true true true
+  | "head" -> mk true false true true false true true
   | "defective" -> { fix_counters = false; fix_stop = false; fix_active = false; fix_sent = false; fix_order = false;
-                     fix_l2stop = false; fix_prune = false; fix_presend = false; fix_ghost = false }
-  | s when String.length s = 7 && s.[0] = 'v' ->
-    mk (s.[1] = '1') (s.[2] = '1') (s.[3] = '1') (s.[4] = '1') (s.[5] = '1') (s.[6] = '1')
+                     fix_l2stop = false; fix_prune = false; fix_l2tp = false; fix_presend = false; fix_ghost = false }
+  | s when String.length s = 8 && s.[0] = 'v' ->
+    mk (s.[1] = '1') (s.[2] = '1') (s.[3] = '1') (s.[4] = '1') (s.[5] = '1') (s.[6] = '1') (s.[7] = '1')
   | s -> failwith ("unknown variant " ^ s)
 
 let c4_of a b c d = { rxb = n_of_decimal a; txb = n_of_decimal b; rxp = n_of_decimal c; txp = n_of_decimal d }
@@ -62,7 +62,10 @@ let run_case v line =
     (* sessions are named by co-location class: equal class = same interim bucket; the bucket NUMBER is the
        implementation's choice, so the model uses the class as the (abstract) bucket *)
     let bk = List.map (fun s -> match String.split_on_char ':' s with [c; _] -> if uint c > 8 then raise Bad else n_of_int (uint c) | _ -> raise Bad) ss in
-    let tys = List.map (fun s -> match String.split_on_char ':' s with [_; t] -> t = "g" | _ -> raise Bad) ss in
+    let tyn = List.map (fun s -> match String.split_on_char ':' s with
+        | [_; "g"] -> n_of_int 1 | [_; "t"] -> n_of_int 2 | [_; _] -> N0 | _ -> raise Bad) ss in
+    let tys = List.map (fun c -> c = n_of_int 1) tyn in       (* l2gw? *)
+    let is_t j = List.nth tyn j = n_of_int 2 in                (* PPP over L2TP? *)
     let bucket_of b = if b = "z" then n_of_int 99 else n_of_int (uint b) in
     let ann f i rest = if uint i >= k then raise Bad else
         match rest with
@@ -70,13 +73,19 @@ let run_case v line =
         | [x; h] -> f (nat_of_int (uint i)) (n_of_int (uint x)) (if List.nth tys (uint i) then n_of_int (uint h) else (ignore (uint h); N0))
         | _ -> raise Bad in
     let g = ref (List.map (fun _ -> sst0) ss) in
-    let traces = Array.make k [] in      (* per session: reversed list of (local event, calls ISSUED) *)
+    let traces = Array.make k [] in      (* per session: reversed list of (local event AS THE VARIANT READS IT, calls ISSUED) *)
+    let otraces = Array.make k [] in     (* ... with the notification as it was delivered: what the property bits are judged on *)
     let arrived = Array.make k [] in     (* per session: reversed list of calls ARRIVED at the provider *)
     let atrace = Array.make k [] in      (* per session: reversed list of (notification, calls ARRIVED during it) *)
     (* wrapped_at.(j).(q): op index at which counter q (0 in-octets, 1 out-octets, 2 in-packets, 3 out-packets) of session
        j first wrapped - per counter: a wrap of one counter says nothing about the others *)
     let wrapped_at = Array.init k (fun _ -> Array.make 4 max_int) in
     let cur_op = ref 0 in
+    (* identity of the cached entry: without fix_l2tp an entry created by a lifecycle event of an l2tp session has no
+       Acct-Session-Id / User-Name (an entry seeded by Restored has); Start / Interim / prune-Stop are built from the entry,
+       the release Stop from the notification *)
+    let noid = Array.make k false in
+    let cur_is_prune = ref false in
     let pruned = Array.make k false in   (* excuse P: the session's accounting was dropped by an orphan prune *)
     let delayed = Array.make k false in  (* excuse D: a Start of the session was held back *)
     let held = Array.make k [] in        (* per session: calls issued but delayed (oldest first) *)
@@ -98,18 +107,25 @@ let run_case v line =
       let before = !g in
       List.iteri (fun j s0 -> match project bk (nat_of_int j) ev with
           | Some le ->
+            let le = l2tp_view v (is_t j) le in
             let w = lstep_wraps4 v (List.nth tys j) s0 le in
             List.iteri (fun q f -> if f && wrapped_at.(j).(q) = max_int then wrapped_at.(j).(q) <- !cur_op)
               [w.w_rxb; w.w_txb; w.w_rxp; w.w_txp]
           | None -> ()) before;
-      let r = gstep v bk tys !g ev in
+      let r = gstep v bk tyn !g ev in
       g := List.map fst r;
+      cur_is_prune := (match ev with GPrune _ -> true | _ -> false);
+      List.iteri (fun j (s0, s1) ->
+          (match ev with
+           | GRestored (jj, _, _) when int_of_nat jj = j && s0.cache = None && s1.cache <> None -> noid.(j) <- false
+           | _ -> ())) (List.combine before !g);
       (match ev with
        | GPrune true -> List.iteri (fun j (s0, s1) -> if s0.cache <> None && s1.cache = None then pruned.(j) <- true)
                           (List.combine before !g)
        | _ -> ());
       List.iteri (fun j (_, o) -> match project bk (nat_of_int j) ev with
-          | Some le -> traces.(j) <- (le, o) :: traces.(j)
+          | Some le -> traces.(j) <- (l2tp_view v (is_t j) le, o) :: traces.(j);
+            otraces.(j) <- (le, o) :: otraces.(j)
           | None -> ()) r;
       (* asynchronous delivery: which of the issued calls arrive now *)
       List.concat (List.mapi (fun j (_, o) ->
@@ -120,7 +136,12 @@ let run_case v line =
           (match project bk (nat_of_int j) ev with
            | Some le -> atrace.(j) <- (le, arr) :: atrace.(j)
            | None -> if arr <> [] then atrace.(j) <- (EPrune false, arr) :: atrace.(j));
-          List.map (fun x -> (j, show_out j x)) arr) r) in
+          (* identity: without fix_l2tp the calls of an l2tp session carry no Acct-Session-Id / User-Name *)
+          if List.mem Start o && is_t j && not v.fix_l2tp then noid.(j) <- true;
+          let bang x = match x with
+            | Stop _ -> if noid.(j) && !cur_is_prune then "!" else ""
+            | _ -> if noid.(j) then "!" else "" in
+          List.map (fun x -> (j, show_out j x ^ bang x)) arr) r) in
     let groups = List.mapi (fun oi op ->
         cur_op := oi;
         if !racy then raise Bad;
@@ -153,9 +174,12 @@ let run_case v line =
           | "A" :: i :: rest -> ann (fun j x h -> GActive (j, x, h)) i rest
           | "R" :: i :: rest -> ann (fun j x h -> GRestored (j, x, h)) i rest
           | ["X"; i; sn] -> if uint i >= k then raise Bad;
-            (match pending_put.(uint i) with Some ok -> late_put.(uint i) <- Some ok; pending_put.(uint i) <- None | None -> ());
-            if flight_valid.(uint i) then detached.(uint i) <- true;
-            flight_valid.(uint i) <- false;
+            (* (without fix_l2tp a released notification of an l2tp session releases nothing) *)
+            if not (is_t (uint i) && not v.fix_l2tp) then begin
+              (match pending_put.(uint i) with Some ok -> late_put.(uint i) <- Some ok; pending_put.(uint i) <- None | None -> ());
+              if flight_valid.(uint i) then detached.(uint i) <- true;
+              flight_valid.(uint i) <- false
+            end;
             GReleased (nat_of_int (uint i), parse_snap sn)
           | ["T"; b; m; sn] ->
             (* while responses are held every Interim of this tick is "sent, no response yet" *)
@@ -210,21 +234,27 @@ let run_case v line =
                   end;
                   Printf.sprintf "%s%d" (if ok then "K" else "F") j) rs in
               flight_valid.(j) <- false;
-              List.map (show_out j) l @ rt) ss) in
+              List.map (fun x -> show_out j x ^ (if noid.(j) then "!" else "")) l @ rt) ss) in
           "[" ^ String.concat " " toks ^ "]"
         | "T" :: _ :: m :: _ when !hold_int ->
           any_held_int := true;
           let mask = uint m in
           let toks = step_one ev in
           List.iter (fun (j, _) -> pending_resp.(j) <- pending_resp.(j) @ [mask land (1 lsl j) = 0]; flight_valid.(j) <- true) toks;
-          let held_tok t = if String.length t > 2 && String.sub t (String.length t - 2) 2 = ":f"
-            then String.sub t 0 (String.length t - 1) ^ "h" else t in
+          let held_tok t =
+            let bang = String.length t > 0 && t.[String.length t - 1] = '!' in
+            let u = if bang then String.sub t 0 (String.length t - 1) else t in
+            let u = if String.length u > 2 && String.sub u (String.length u - 2) 2 = ":f"
+              then String.sub u 0 (String.length u - 1) ^ "h" else u in
+            if bang then u ^ "!" else u in
           "[" ^ String.concat " " (List.map (fun (_, t) -> held_tok t) toks) ^ "]"
         | "T" :: _ ->
           (* an Interim whose request fails is answered at once: the failure checkpoints the session ([ENack]) *)
           let toks = step_one ev in
-          List.iter (fun (j, t) -> if String.length t > 2 && String.sub t (String.length t - 2) 2 = ":f"
-                      then ignore (step_one (GNack (nat_of_int j)))) toks;
+          List.iter (fun (j, t) ->
+              let u = if String.length t > 0 && t.[String.length t - 1] = '!' then String.sub t 0 (String.length t - 1) else t in
+              if String.length u > 2 && String.sub u (String.length u - 2) 2 = ":f"
+              then ignore (step_one (GNack (nat_of_int j)))) toks;
           "[" ^ String.concat " " (List.map snd toks) ^ "]"
         | _ -> "[" ^ String.concat " " (List.map snd (step_one ev)) ^ "]" end) ops in
     let dump = List.mapi (fun j s ->
@@ -241,7 +271,7 @@ let run_case v line =
         let evs = List.map fst t in
         let arr = List.rev arrived.(j) in
         (* brk / mono / snt / ord are judged on what ARRIVED at the provider, stp on the notifications *)
-        let brk = bracketed false arr and stp = stops_ok false t and mono = nondecreasing c4z arr
+        let brk = bracketed false arr and stp = stops_ok false (List.rev otraces.(j)) and mono = nondecreasing c4z arr
         and snt = nondecreasing_sent c4z arr and ord = strictT BClosed (List.rev atrace.(j)) in
         (* sent-monotone bit of counter q alone: the extracted [mono_outs] with the other three counters waived *)
         let snt_q q = fst (mono_outs { w_rxb = q <> 0; w_txb = q <> 1; w_rxp = q <> 2; w_txp = q <> 3 } c4z arr) in
@@ -256,7 +286,7 @@ let run_case v line =
         (* cross-check of the extracted code against the theorems (variants with fix_sent) *)
         let bug = t' <> t ||
                   (v.fix_sent && v.fix_presend && not wraps && (v.fix_ghost || no_late evs) &&
-                   (not (accepted true v.fix_prune t) || not stp || (fp_or_np && not (ibrk && isnt && iord)) || (np && not imono))) in
+                   (not (accepted true v.fix_prune t) || not (stops_ok false t) || (fp_or_np && not (ibrk && isnt && iord)) || (np && not imono))) in
         (* Every verdict bit that is 0 must have a stated excuse, else the line is marked UNEXCUSED and cannot match:
              W  a uint64 cumulative wrapped (excuses mono, snt)
              P  the accounting was dropped by an orphan prune and the variant sends no Stop for it (fixed in 7faf7f9: never at HEAD)
@@ -265,10 +295,11 @@ let run_case v line =
                 excuse for stp: the ghost entry gets a second Stop) *)
         let exc_p = pruned.(j) && not v.fix_prune and exc_d = delayed.(j) && not v.fix_order
         and exc_g = ghosted.(j)      (* only set for variants without fix_ghost *)
-        and exc_q = forgot.(j) && not v.fix_presend in
-        let any = exc_p || exc_d || exc_g || exc_q in
+        and exc_q = forgot.(j) && not v.fix_presend
+        and exc_t = is_t j && not v.fix_l2tp in     (* known finding: l2tp lifecycle events are not decoded *)
+        let any = exc_p || exc_d || exc_g || exc_q || exc_t in
         ignore snt;
-        let unexcused = (not brk && not any) || (not stp && not exc_g) || (not mono && not (wraps || any))
+        let unexcused = (not brk && not any) || (not stp && not (exc_g || exc_t)) || (not mono && not (wraps || any))
                         || List.exists (fun q -> not (snt_q q) && not (wrapped_q q || any)) [0; 1; 2; 3]
                         || (not ord && not any) in
         Printf.sprintf "v%d=%s%s%s%s%s%s%s%s%s%s%s%s%s%s" j (b brk) (b stp) (b mono)
